@@ -83,9 +83,12 @@ type jrec struct {
 
 // readAll reads a whole journal file the way recoverJournal does (tolerant, checksums on) and returns the
 // header fields and marker id of every record yielded.
-func readAll(data []byte) []jrec {
+func readAll(data []byte) []jrec { return readAllMode(data, true) }
+
+// readAllMode: the same with the checksum flag given (opt.StrictJournalChecksum).
+func readAllMode(data []byte, checksum bool) []jrec {
 	var out []jrec
-	jr := journal.NewReader(bytes.NewReader(data), nil, false, true)
+	jr := journal.NewReader(bytes.NewReader(data), nil, false, checksum)
 	for {
 		r, err := jr.Next()
 		if err != nil {
